@@ -103,6 +103,9 @@ def run_case(case, cnt=None, root=None, idset=None):
             clicase.plant(host, rnd, f, where=rnd.choice(names))
         for k in case["warnings"]:
             clicase.plant(host, rnd, faults.render_warning(k, "\t"), where=rnd.choice(host["linked"]))
+        # dotted symbol names (legal identifiers) so that listings and diagnostics meet them
+        if rnd.random() < 0.5:
+            host["texts"][rnd.choice(host["linked"])].extend(["dot.ted = 5", "x.y.z = dot.ted + 1"])
         sel = case["selector"]
         expected_outputs = []
         argv_sel = []
@@ -132,7 +135,15 @@ def run_case(case, cnt=None, root=None, idset=None):
             argv_sel.append("--lst")
             lst = "out/prog.lst" if sel.startswith("o-bin") else "mk.lst"
             expected_outputs.append(lst)
-        clicase.write_host(host, work)
+        no_nl = set()
+        if rnd.random() < 0.4:
+            # a file whose last line has no newline, possibly with a warning-only statement on that very line
+            last_file = host["linked"][-1]
+            no_nl.add(last_file)
+            if rnd.random() < 0.7 and not sel.startswith("make"):
+                w = faults.render_warning(rnd.choice(["byte-without-operand", "list-directive", "page-directive", "legacy-deferred", "excess-hash", "implicit-index"]), "\t")
+                clicase.append_last(host, [l for l in w["lines"] if l.strip() != ".even"], last_file)
+        clicase.write_host(host, work, final_newline=no_nl if no_nl else True)
         os.makedirs(os.path.join(work, "out"), exist_ok=True)
         pre = {}
         if case["preexisting"]:
